@@ -520,6 +520,42 @@ func RunC12On(h *MSHist, rep Reporter, disk bool) {
 						break
 					}
 				}
+				// (a'') versioned read-only views of the live object (CacheMultiStoreWithVersion): the committed content of
+				// a retained version, an error for a pruned or future one
+				for _, u := range []int64{v, v - 1, v - 2, 1, v + 2} {
+					if u < 1 || h.LateFrom > 0 {
+						// (with a store mounted later, CacheMultiStoreWithVersion asks every substore for the multistore's
+						// version number, which the late store numbers differently: it fails for every version. Stores
+						// mounted later are outside the statement; LoadVersion, which the application uses, handles them.)
+						continue
+					}
+					var cms stypes.CacheMultiStore
+					var verr error
+					if p := safely(func() { cms, verr = in.rs.CacheMultiStoreWithVersion(u) }); p != nil {
+						verr = fmt.Errorf("panic: %v", p)
+					}
+					kept := Retained(u, v, h.Pruning)
+					rep.Count("c12.versioned_views", 1)
+					switch {
+					case kept && verr != nil:
+						rep.Violate("C12", "versioned-view-error/"+pstr, fmt.Sprintf("CacheMultiStoreWithVersion(%d) at latest %d (retained under pruning %s) fails: %v", u, v, pstr, verr))
+					case kept:
+						got := make(content, h.NStores)
+						for i := range got {
+							got[i] = map[string]string{}
+						}
+						for i, k := range in.keys {
+							for _, kv := range drain(cms.GetKVStore(k).Iterator(nil, nil)) {
+								got[i][kv[0]] = kv[1]
+							}
+						}
+						if d := diffContent(versions[u], got); d != "" {
+							rep.Violate("C12", "versioned-view-content", fmt.Sprintf("CacheMultiStoreWithVersion(%d) at latest %d: %s", u, v, d))
+						}
+					case verr == nil:
+						rep.Violate("C12", "versioned-view-of-unavailable-version/"+pstr, fmt.Sprintf("CacheMultiStoreWithVersion(%d) at latest %d succeeded although that version is pruned / does not exist (pruning %s)", u, v, pstr))
+					}
+				}
 				// (b) the same object loads its latest version again: the uncommitted writes are gone
 				var lerr error
 				if p := safely(func() { lerr = in.loadLatest(h) }); p != nil {
